@@ -516,10 +516,107 @@ def book_tie(texts, outcomes=None):
     return len(cases), bad
 
 
+# ---------------------------------------------------------------- AST-level tie: literal spans and values
+
+LIT_SKELETON = """
+event E:
+    x: decimal
+    n: uint256
+    s: String[12]
+    b: Bytes[8]
+
+interface Foo:
+    def bar(a: decimal, n: uint256) -> decimal: nonpayable
+    def baz(a: uint256, s: String[12], b: Bytes[8]) -> uint256: view
+
+@external
+def f(t: address, y: decimal, q: uint256) -> uint256:
+{body}
+    return q
+"""
+
+
+def literal_texts(ctx, n):
+    """texts with literals after log / extcall / staticcall followed by blanks, operators, comments"""
+    rnd = ctx.rng("c20p-lits")
+    decs = ["12.345", "0.5", "1.5", "2.5", "100.0000000001", "7.25"]
+    ints = ["1", "42", "1_000", "0", "115792089237316195423570985008687907853269984665640564039457584007913129639935"]
+    hexs = ["0x1234", "0xdeadbeef", "0x00"]
+    strs = ['"ab"', "'c d'", '"x"', '"ab" "cd"']
+    byts = ['b"ab"', 'x"abcd"', 'x"00"', "0b00000011", 'b"\\x01"']
+    sp = lambda: rnd.choice(["", " ", "  ", "   "])  # noqa
+    out = []
+    for i in range(n):
+        lines = []
+        for _ in range(rnd.randrange(2, 6)):
+            d1, d2, k1, k2 = rnd.choice(decs), rnd.choice(decs), rnd.choice(ints), rnd.choice(ints)
+            h, st, by = rnd.choice(hexs), rnd.choice(strs), rnd.choice(byts)
+            cm = rnd.choice(["", "  # c", " #log extcall 1.5"])
+            kind = rnd.randrange(6)
+            if kind == 0:
+                lines.append(f"    log E(x={d1}{sp()}+{sp()}{d2}{sp()},{sp()}n={k1}{sp()}*{sp()}{k2} ,s={st}{sp()}, b={by}{sp()}){cm}")
+            elif kind == 1:
+                lines.append(f"    z{len(lines)}: decimal = extcall Foo(t).bar({d1}{sp()}+{sp()}y{sp()},{sp()}{k1}{sp()}){cm}")
+            elif kind == 2:
+                lines.append(f"    w{len(lines)}: uint256 = staticcall Foo(t).baz({k1}{sp()}+ q,{sp()}{st}{sp()},{sp()}{by}{sp()}){sp()}+{sp()}{k2}{cm}")
+            elif kind == 3:
+                lines.append(f"    v{len(lines)}: uint256 = {k1}{sp()}+{sp()}convert({h}{sp()}, uint256){cm}")
+            elif kind == 4:
+                lines.append(f"    if staticcall Foo(t).baz({k1} ,{st} ,{by} ) > {k2} : log E(x={d1} ,n={k2} ,s={st} ,b={by} ){cm}")
+            else:
+                lines.append(f"    u{len(lines)}: decimal = (extcall Foo(t).bar({d1} , {k1} )) + (extcall Foo(t).bar({d2}{sp()},{k2}{sp()})){cm}")
+        out.append((f"literals/{i}", LIT_SKELETON.format(body="\n".join(lines))))
+    return out
+
+
+def literal_problems(src):
+    """for every literal node of parse_to_ast(src): node_source_code is the literal's own token text and the node
+    value is the python value of that text.  -> list of (node type, message); None if the text does not parse"""
+    import ast
+    from decimal import Decimal
+    from vyper import ast as vy_ast
+    from vyper.ast.parse import parse_to_ast
+    try:
+        mod = parse_to_ast(src)
+        toks = {tuple(t.start): t for t in source_tokens(src)}
+    except Exception:  # noqa
+        return None
+    probs = []
+    for n in mod.get_descendants(vy_ast.Constant):
+        ty = type(n).__name__
+        text = n.node_source_code
+        tok = toks.get((n.lineno, n.col_offset))
+        try:
+            if ty == "Int":
+                ok = int(ast.literal_eval(text)) == n.value
+            elif ty == "Decimal":
+                ok = Decimal(text.replace("_", "")) == n.value
+            elif ty == "Hex":
+                ok = text == n.value
+            elif ty in ("Str", "NameConstant"):
+                ok = ast.literal_eval(text) == n.value
+            elif ty == "HexBytes":
+                ok = bytes.fromhex(ast.literal_eval(text)) == n.value
+            elif ty == "Bytes":
+                ok = (int(text, 2).to_bytes((len(text) - 2) // 8, "big") if text.startswith("0b") else ast.literal_eval(text)) == n.value
+            else:
+                continue
+        except Exception as e:  # noqa: the text of the node is not even a literal
+            ok = False
+            text = f"{text!r} ({type(e).__name__})"
+        if not ok:
+            probs.append((ty, f"{ty} node at {n.lineno}:{n.col_offset} has value {n.value!r} but its source text is {text!r}"))
+        elif tok is None or not (text == tok.string or (ty in ("Str", "Bytes") and text.startswith(tok.string))):
+            probs.append((ty, f"{ty} node at {n.lineno}:{n.col_offset}: source text {text!r} is not the token "
+                              f"{(tok.string if tok else None)!r} standing there"))
+    return probs
+
+
 # ---------------------------------------------------------------- the part
 
 FILES = ["C20P/Tok.v", "C20P/GenTokConst.v", "C20P/GenPragmaConst.v", "C20P/PreParse.v", "C20P/Pragma.v", "C20P/Harness.v",
-         "C20P/GenPreParse.v", "C20P/PreParseSound.v", "C20P/PreParseProofs.v", "C20P/PragmaProofs.v", "C20P/PropsPreParse.v",
+         "C20P/GenPreParse.v", "C20P/PreParseSound.v", "C20P/PreParseProofs.v", "C20P/PragmaProofs.v", "C20P/SpanProofs.v",
+         "C20P/PropsPreParse.v",
          "C20P/Book.v"]
 
 
@@ -570,7 +667,8 @@ def part_preparse(ctx):
     try:
         srcs = corpus_sources(ctx)
         n_text = 40 if ctx.tier == "quick" else 600
-        texts = srcs + [(n, s) for n, s in REPLAYS] + text_variants(ctx, srcs, n_text)
+        lits = literal_texts(ctx, 25 if ctx.tier == "quick" else 300)
+        texts = srcs + [(n, s) for n, s in REPLAYS] + lits + text_variants(ctx, srcs + lits[:10], n_text)
         # ---- (4) search: whole front end on texts
         outcomes = {}
         for name, src in texts:
@@ -581,6 +679,19 @@ def part_preparse(ctx):
                 key = f"C20:{o['cls']}:{o['frame']}"
                 failing(key, f"parse_to_ast raises {o['cls']} (not a user-facing diagnostic)",
                         {"source": src, "exception": o["cls"], "message": o["msg"], "frame": o["frame"], "origin": name})
+        # ---- AST-level tie: literal nodes carry their own text and value
+        n_lit_texts = n_lit_nodes_bad = 0
+        for name, src in texts:
+            if outcomes[name]["kind"] != "ok":
+                continue
+            pr = literal_problems(src)
+            if pr is None:
+                continue
+            n_lit_texts += 1
+            if pr:
+                n_lit_nodes_bad += len(pr)
+                failing(f"C20:literal-span:{pr[0][0]}", "a literal node does not carry its own source text / value: " + pr[0][1],
+                        {"source": src, "problems": [m for _, m in pr[:6]], "origin": name})
         # ---- (3) tie on token streams
         cases = []
         n_src = 0
@@ -644,7 +755,7 @@ def part_preparse(ctx):
         ctx.violation("translator-rejected", "cannot translate vyper/ast/pre_parser.py: " + rejected, {"error": rejected})
     n = len(texts) + n_book + len(model_cases) * (2 if gen_ready else 1)
     ctx.corr["preparse"] = {"texts_parsed": len(texts), "source_token_streams": n_src, "generated_token_streams": len(model_cases) - n_src,
-                            "model_comparisons": len(model_cases) * (2 if gen_ready else 1), "mismatches": len(mismatches), "bookkeeping_cases": n_book, "bookkeeping_mismatches": len(bad_book),
+                            "model_comparisons": len(model_cases) * (2 if gen_ready else 1), "mismatches": len(mismatches), "literal_tie_texts": n_lit_texts, "literal_tie_bad_nodes": n_lit_nodes_bad, "bookkeeping_cases": n_book, "bookkeeping_mismatches": len(bad_book),
                             "regenerated_model_used": bool(gen_ready), "input_distribution": dict(sorted(dist.items()))}
     ctx.trusted += ["tools/vlib/c20_preparse2coq.py (CPS translator of the pre-parser methods; validated by the per-run differential)",
                     "coq/C20P/Pragma.v: hand model of the COMMENT block (exact differential); packaging.SpecifierSet abstracted"]
